@@ -67,6 +67,27 @@ pub fn tool(args: &[String]) {
             }
             println!("sm2 selftest {:.2}s", t.elapsed().as_secs_f64());
         }
+        Some("bench") => {
+            use crate::refs::{sm2 as r2, sm9 as r9};
+            let k = r2::hexn("59276E27D506861A16680F3AD9C02DCCEF3CC1FA3CDBE4CE6D54B80DEAC1BC21");
+            let t = std::time::Instant::now();
+            for _ in 0..20 { let _ = r2::mul(&k, &r2::g()); }
+            println!("sm2 ref mul: {:.2} ms", t.elapsed().as_secs_f64() * 50.0);
+            let t = std::time::Instant::now();
+            for _ in 0..20 { let _ = r9::g1_mul(&k, &r9::g1_gen()); }
+            println!("sm9 ref g1_mul: {:.2} ms", t.elapsed().as_secs_f64() * 50.0);
+            let t = std::time::Instant::now();
+            for _ in 0..5 { let _ = r9::g2_mul(&k, &r9::g2_gen()); }
+            println!("sm9 ref g2_mul: {:.2} ms", t.elapsed().as_secs_f64() * 200.0);
+            let pr = r9::params();
+            let t = std::time::Instant::now();
+            for _ in 0..5 { let _ = r9::pairing(&pr.p1, &pr.p2); }
+            println!("sm9 ref pairing: {:.2} ms", t.elapsed().as_secs_f64() * 200.0);
+            let g = r9::pairing(&pr.p1, &pr.p2).unwrap();
+            let t = std::time::Instant::now();
+            for _ in 0..5 { let _ = r9::f12pow(&g, &k); }
+            println!("sm9 ref f12pow: {:.2} ms", t.elapsed().as_secs_f64() * 200.0);
+        }
         Some("sm2-zero-coord") => tools_sm2::zero_coord_search(16),
         Some("sm2-search") => tools_sm2::search(16, 2, 2),
         _ => eprintln!("unknown tool"),
